@@ -11,7 +11,7 @@ t, out = sys.argv[1:3]
 d = {}
 for sub in ("src", "examples", "arduino"):
     d.update(json.load(open(os.path.join(t, sub, "verif_loops.json"))))
-d = {k: v for k, v in d.items() if v}
+d = {k: v for k, v in d.items() if v and not k.startswith("__")}
 json.dump(d, open(out, "w"), indent=0, sort_keys=True)
 print("loop baseline: %d functions with loops" % len(d))
 PY
